@@ -5,6 +5,7 @@ import (
 	"encoding/json"
 	"fmt"
 	"os"
+	"runtime/pprof"
 	"syscall"
 
 	"verif/sim/tape"
@@ -21,6 +22,7 @@ type Command struct {
 	UseTap bool     `json:"use_tape,omitempty"`
 	Script []json.RawMessage `json:"script,omitempty"`
 	Log    bool     `json:"log,omitempty"`
+	Dry    bool     `json:"dry,omitempty"`
 }
 
 // Reply is sent by a worker, one JSON object per line on stdout.
@@ -44,6 +46,13 @@ func WorkerMain(p *Property, tier string, seed uint64) {
 	if p.MemLimitMB > 0 {
 		lim := uint64(p.MemLimitMB) << 20
 		_ = syscall.Setrlimit(syscall.RLIMIT_AS, &syscall.Rlimit{Cur: lim, Max: lim})
+	}
+	if pf := os.Getenv("VERIF_PROFILE"); pf != "" {
+		f, err := os.Create(fmt.Sprintf("%s.%d", pf, os.Getpid()))
+		if err == nil {
+			pprof.StartCPUProfile(f)
+			defer pprof.StopCPUProfile()
+		}
 	}
 	in := bufio.NewReaderSize(os.Stdin, 1<<20)
 	out := bufio.NewWriterSize(os.Stdout, 1<<16)
@@ -77,7 +86,7 @@ func WorkerMain(p *Property, tier string, seed uint64) {
 			}
 			fmt.Fprintf(out, "{\"t\":\"start\",\"i\":%d}\n", cmd.Index)
 			out.Flush()
-			res := RunTapeOrScript(p, t, cmd.Script, tier, cmd.Log)
+			res := RunFull(p, t, cmd.Script, tier, cmd.Log, cmd.Dry)
 			res.Index = cmd.Index
 			send(&Reply{T: "one", One: res})
 		case "batch":
